@@ -547,8 +547,11 @@ def main(argv):
         "property_id": pid, "tier": tier, "seed": seed, "level": "proof", "coverage": cov,
         "assumptions": P.get("assumptions", []), "wall_s": round(wall, 2), "violations": violations,
     }
-    os.makedirs(os.path.join(VERIF, "evidence"), exist_ok=True)
-    with open(os.path.join(VERIF, "evidence", "%s.json" % pid), "w") as f:
+    # evidence is only ever written for /repo itself; runs against a scratch copy
+    # (VERIF_REPO, seeded changes) keep theirs under out/
+    evdir = os.path.join(VERIF, "evidence") if os.path.realpath(REPO) == "/repo" else os.path.join(OUT, "evidence-scratch")
+    os.makedirs(evdir, exist_ok=True)
+    with open(os.path.join(evdir, "%s.json" % pid), "w") as f:
         json.dump(evidence, f, indent=1, sort_keys=True)
         f.write("\n")
     for l in lines:
